@@ -46,24 +46,21 @@ def run_quoter_level(out, sc, tier, seed, prop, bounds=None, unq=False):
                       what=f"all texts of up to {maxlen} items over {items} x all configurations; invariants {invs}")
         dumps.append((items, str(dump) + ".dump"))
     out.exhaustive = True
-    # ---- R2: every dumped text is replayed on the real classes
+    # ---- R2: every dumped text is replayed on the real classes (thorough tier: the deepest level of the largest alphabet is
+    # model-checked but not replayed -- 10 M records -- the replay stops one level earlier)
     shards = []
+    names_q = ["QUOTER", "REQUOTER", "PATH_QUOTER", "PATH_REQUOTER", "QUERY_QUOTER", "QUERY_REQUOTER",
+               "QUERY_PART_QUOTER", "FRAGMENT_QUOTER", "FRAGMENT_REQUOTER"]
+    names_u = ["UNQUOTER", "PATH_UNQUOTER", "PATH_SAFE_UNQUOTER", "QS_UNQUOTER"]
     for items, path in dumps:
         texts = parse_dump(path)
-        calls = []
-        names_q = ["QUOTER", "REQUOTER", "PATH_QUOTER", "PATH_REQUOTER", "QUERY_QUOTER", "QUERY_REQUOTER",
-                   "QUERY_PART_QUOTER", "FRAGMENT_QUOTER", "FRAGMENT_REQUOTER"]
-        names_u = ["UNQUOTER", "PATH_UNQUOTER", "PATH_SAFE_UNQUOTER", "QS_UNQUOTER"]
-        for t in texts:
-            if items != "UnqTokens":
-                for n in names_q:
-                    calls.append({"kind": "quote", "name": n, "in": t})
-            if unq:
-                for n in names_u:
-                    calls.append({"kind": "unquote", "name": n, "in": t})
-        cf_ = work / f"calls-{items}.json"
-        cf_.write_text(json.dumps(calls))
-        shards += run_driver(sc, "quote", {"mode": "file", "calls_file": str(cf_)}, f"dump{items}", nslices=12)
+        if tier == "thorough" and items == "CharCore":
+            texts = [t for t in texts if len(t) <= 4]
+        tf = work / f"texts-{items}.json"
+        tf.write_text(json.dumps(texts))
+        params = {"mode": "texts_file", "texts_file": str(tf),
+                  "quoters": names_q if items != "UnqTokens" else [], "unquoters": names_u if unq else []}
+        shards += run_driver(sc, "quote", params, f"dump{items}", nslices=12, shard_size=3000 if tier == "quick" else 8000)
     # ---- beyond the bounds: sweeps and seeded random texts
     shards += run_driver(sc, "quote", {"mode": "ascii_sweep"}, "sweep", nslices=4)
     shards += run_driver(sc, "quote", {"mode": "unicode_reps"}, "ureps", nslices=1)
